@@ -188,7 +188,7 @@ def run(ctx):
         a = st["ans"]
         rows_g.append((cone, [list(v) for v in seq(st["cfg"]["V"])], [list(x) for x in seq(a["gap"])], {e: set(p) for e, p in a["cov"].items()},
                        {k: v for k, v in a["d2"].items()}))
-    f = _run(ctx, "f1", 3, cones if thorough else ["orth", "pyobt", "k3b"])
+    f = _run(ctx, "f1", 3, cones if thorough else ["orth", "pyobt"])        # k3b (unequal alphas) is in the gap table of both tiers
     rows_f = [(cone, [list(v) for v in seq(st["cfg"]["V"])], set(st["ans"]["true"]), list(seq(st["cfg"]["pred"])), dict(st["ans"]["f1"]), dict(st["ans"]["bd"]))
               for cone, st in f]
     h = _run(ctx, "hv", 2, ["orth", "pyobt", "pyac"])
